@@ -28,3 +28,84 @@ CHECK = GraphCheck(
 )
 
 CHECK.with_gtests = True
+
+
+# ---------------------------------------------------------------- aliasing histories
+# Tables must stay right on *every* graph, also on one that merely shares a
+# description with a graph that is transformed further: write a graph, read it
+# back twice, restructure only one copy, then look at the original and at the
+# untouched copy.
+import random as _random
+
+from .. import core as _core, attach as _attach, drivers as _drivers
+from ..attach import run_oracle as _run_oracle
+from ..workloads import graphs as _graphs
+from .base import ShardAcc as _ShardAcc
+
+_plan0 = CHECK.plan
+_run0 = CHECK.run_shard
+
+
+def _plan(tier, seed):
+    shards = _plan0(tier, seed)
+    total = 1500 if tier == "quick" else 60000
+    per = 250 if tier == "quick" else 3000
+    for start in range(0, total, per):
+        shards.append({"kind": "alias", "seed": seed, "start": start, "count": per, "tier": tier})
+    return shards
+
+
+def _alias_case(case, acc):
+    from numba_scfg.core.datastructures.scfg import SCFG
+    from ..oracles import ctrlvars
+    from ..hier import dump
+
+    ctx = _core.set_ctx(_core.Ctx(None))
+    _attach.ACTIVE.clear()
+    g = {k: tuple(v) for k, v in case["g"].items()}
+    scfg = _drivers.make_scfg(g, "bytecode")
+    done = _drivers.run_stages(scfg, case["prefix"], ctx)
+    nt = None
+    if len(done) == len(case["prefix"]):
+        try:
+            d = scfg.to_dict()
+            c1, _ = SCFG.from_dict(d)
+            c2, _ = SCFG.from_dict(d)
+        except Exception:
+            acc.counters["alias.io_failed"] += 1
+            acc.add_ctx(ctx, case)
+            return
+        before = (dump(scfg), dump(c2))
+        rest = "JLB"[len(case["prefix"]):]
+        _drivers.run_stages(c1, rest, ctx)
+        ctx.hit("C06.alias_histories")
+        for label, gr, b in (("original", scfg, before[0]), ("untouched_copy", c2, before[1])):
+            _run_oracle(ctx, "C06.tables", ctrlvars.check_tables, gr)
+            if dump(gr) != b:
+                ctx.violation("C06", "graph_changed_by_restructuring_a_copy_read_from_its_dict",
+                              {"which": label})
+        nt = _core.sha([g, case["prefix"]])
+    acc.add_ctx(ctx, case, nontrivial_hash=nt, sample=(acc.evaluations % 499 == 0))
+
+
+def _run_shard(spec):
+    if spec["kind"] == "alias" or (spec["kind"] == "single"
+                                   and spec["case"].get("kind") == "alias"):
+        _attach.install(CHECK.profile)
+        acc = _ShardAcc("C06")
+        if spec["kind"] == "single":
+            _alias_case(spec["case"], acc)
+            return acc.result()
+        for i in range(spec["start"], spec["start"] + spec["count"]):
+            rng = _random.Random(f"c06a/{spec['seed']}/{i}")
+            cls = rng.choice(["rand", "rand_small", "loop", "struct"])
+            g = _graphs.make_case(cls, spec["seed"], i)
+            if g is None:
+                continue
+            _alias_case({"kind": "alias", "g": g, "prefix": rng.choice(["J", "JL", "JL"])}, acc)
+        return acc.result()
+    return _run0(spec)
+
+
+CHECK.plan = _plan
+CHECK.run_shard = _run_shard
